@@ -28,6 +28,7 @@ EXPLANATION = (
     "property is decided in full (reachability is a statement about code shape)."
     ' R1 also checks the factories the classification relies on: Inverter._read_command / _write_command / _write_multi_command return exactly self._protocol.<same factory>(<their arguments>), and the protocol factories return one fresh construction of the matching command class from self._comm_addr and their own arguments.'
     " (R4, shared with C08.R3) the tests that recognise 'register does not exist' compare against a reason text the validators produce, so a refused setting becomes an unknown id."
+    ' R4 also requires _read_sensor to pop the refused setting from self._settings.'
 )
 
 READ_ONLY = ("read_device_info", "read_runtime_data", "read_sensor", "read_setting", "read_settings_data", "get_grid_export_limit",
@@ -209,6 +210,25 @@ def check(ctx: Ctx, rep: Report):
     rep.rule("C18.R4", "a setting the inverter reports as non-existent becomes an unknown id: the tests that recognise that refusal compare against a reason text the validators produce (shared with C08.R3)", 4)
     from .c08 import message_comparisons
     message_comparisons(ctx, rep, "C18.R4")
+    # ... and on that refusal the setting is dropped from self._settings (so a later write of it is an unknown id)
+    from ..famstate import _illegal_choice
+    for fam in ("ET", "DT"):
+        rs = ctx.prog.cls(fam).methods.get("_read_sensor")
+        if rs is None:
+            raise AnalysisError("%s._read_sensor not found" % fam)
+        bad, n = None, 0
+        from .proto import protocol_paths
+        for p in protocol_paths(ctx, rs):
+            if not any(ev.kind == "test" and _illegal_choice(ev) == "illegal" for ev in p.events):
+                continue
+            n += 1
+            pops = [ev for ev in p.events if ev.kind == "call" and (call_chain(ev.node) or ())[-2:] == ("_settings", "pop")]
+            if not pops and bad is None:
+                bad = p
+        if n == 0:
+            raise AnalysisError("%s._read_sensor: no path recognises ILLEGAL DATA ADDRESS" % fam)
+        rep.check(bad is None, "C18.R4", "forget:%s" % fam, rs.loc(), "%s._read_sensor forgets a setting the inverter reports as non-existent" % fam,
+                  bad="%s._read_sensor no longer removes a setting the inverter refused with ILLEGAL DATA ADDRESS from self._settings: it stays a known id and a later write of it is transmitted [path %s]" % (fam, bad.describe(6) if bad else ""))
     prog, res = ctx.prog, ctx.res
     wire = ctx.memo("wire", lambda: Wire(ctx))
     kinds = {}
